@@ -99,6 +99,8 @@ def _obs_post(d, name, mod, inp, out):
 def install_observers(d):
     remove_observers(d)
     d.train_mode = False
+    if os.environ.get("QSIM_NO_OBSERVERS") == "1":
+        return  # transparency self-test: the system runs unobserved
     for name, mod in qmodules(d.model):
         d.obs_handles.append(mod.register_forward_pre_hook(partial(_obs_pre, d, name)))
         d.obs_handles.append(mod.register_forward_hook(partial(_obs_post, d, name)))
@@ -625,7 +627,11 @@ def do_forward(w, d, op, p):
         xdig = R.input_digest(x)
     pre_scales = scale_snapshot(d) if (w.depth > 0 and d.quantized) else None
     fd = op.get("fault")
+    if w.no_observers:
+        fd = None  # transparency self-test (a): no hooks, no modes
     inj = faults.arm(fd, lambda path: dict(d.model.named_modules()).get(path))
+    if w.arm_silent and not fd:
+        inj = faults.SilentArmed()  # transparency self-test (c): armed but never firing
     d.obs = []
     d.open = []
     d.train_mode = False
